@@ -209,3 +209,14 @@ pub fn tuples(a: &[Value], n: usize) -> Vec<Vec<Value>> {
     }
     out
 }
+
+/// Size classes beyond the exhaustively enumerated lengths: around powers of two, small-vector
+/// and chunking thresholds. Used by the "size probe" sub-spaces (not exhaustive at these sizes:
+/// a few position-sensitive patterns per size).
+pub fn size_classes(thorough: bool) -> Vec<usize> {
+    if thorough {
+        vec![4, 5, 7, 8, 9, 12, 15, 16, 17, 24, 31, 32, 33, 63, 64, 65, 100, 127, 128, 129, 255, 256, 257, 1000]
+    } else {
+        vec![5, 8, 9, 16, 17, 32, 33, 64, 65, 129, 257]
+    }
+}
